@@ -158,6 +158,16 @@ func verifRunPALS(target, query *linear.Seq, self bool, minLen int, minID float6
 	return hits, recovered, nil
 }
 
+func verifOther(b byte) byte {
+	const l = "ACGT"
+	for j := 0; j < len(l); j++ {
+		if l[j] == b {
+			return l[(j+1)%len(l)]
+		}
+	}
+	return 'A'
+}
+
 func verifMin(a, b int) int {
 	if a < b {
 		return a
@@ -227,6 +237,58 @@ func TestVerifBounded_C15_PlantedRepeats(t *testing.T) {
 			nontrivial++
 		}
 	}
+	// short repeats: barely longer than the minimum hit length, with one substitution a few bases inside each end,
+	// so that the q-gram filter sees a trapezoid shorter than the minimum hit length and the hit has to be grown by
+	// the dynamic programming extension
+	shortRuns, shortRec := runs/4, 0
+	for k := 0; k < shortRuns; k++ {
+		minLen := []int{100, 150}[rnd.Intn(2)]
+		minID := []float64{0.9, 0.95}[rnd.Intn(2)]
+		L := minLen + 4 + rnd.Intn(9)
+		inset := 6 + rnd.Intn(5)
+		bgT, bgQ := 2000+rnd.Intn(1000), 2000+rnd.Intn(1000)
+		tb := verifRandDNA(rnd, bgT)
+		qb := verifRandDNA(rnd, bgQ)
+		ts := 1 + rnd.Intn(bgT-L-2)
+		img := append([]byte(nil), tb[ts:ts+L]...)
+		img[inset] = verifOther(img[inset])
+		img[L-1-inset] = verifOther(img[L-1-inset])
+		qs := 1 + rnd.Intn(bgQ-2)
+		qb = append(append(append([]byte(nil), qb[:qs]...), img...), qb[qs:]...)
+		// exact boundaries: the bases flanking the copy differ
+		if qb[qs-1] == tb[ts-1] {
+			qb[qs-1] = verifOther(qb[qs-1])
+		}
+		if qb[qs+L] == tb[ts+L] {
+			qb[qs+L] = verifOther(qb[qs+L])
+		}
+		rc := rnd.Intn(2) == 1
+		plant := &verifPlant{tStart: ts, tEnd: ts + L, qStart: qs, qEnd: qs + L, revcomp: rc}
+		if rc {
+			qb = verifRevComp(qb)
+			plant.qStart, plant.qEnd = len(qb)-(qs+L), len(qb)-qs
+		}
+		cases++
+		hits, rec, err := verifRunPALS(verifSeq("t", tb), verifSeq("q", qb), false, minLen, minID, plant)
+		totalHits += hits
+		desc := fmt.Sprintf("short run %d: target %d, query %d, repeat length %d at target %d / query %d with substitutions %d bases inside each end, revcomp=%v, minLen %d, minId %.2f", k, bgT, len(qb), L, ts, qs, inset, rc, minLen, minID)
+		switch {
+		case err != nil:
+			failed++
+			if failed <= 8 {
+				t.Errorf("%s: %v", desc, err)
+			}
+		case !rec:
+			failed++
+			if failed <= 8 {
+				t.Errorf("%s: planted repeat not recovered (%d hits)", desc, hits)
+			}
+		default:
+			nontrivial++
+			shortRec++
+		}
+	}
+	_ = shortRec
 	// self comparison: a sequence with an internal repeat; the trivial self match must not be reported
 	for k := 0; k < runs/4+1; k++ {
 		n := 3000 + rnd.Intn(2000)
@@ -248,5 +310,5 @@ func TestVerifBounded_C15_PlantedRepeats(t *testing.T) {
 			nontrivial++
 		}
 	}
-	fmt.Printf("BOUNDED name=C15.planted cases=%d nontrivial=%d exhaustive=false domain=\"seeded random: %d target/query pairs of random DNA (2..%d kb) with one planted repeat of length 300..800 (exact, substitutions, substitutions+indels; forward or reverse complement), minimum length 100/150/200, minimum identity 0.85/0.9/0.95, plus self comparisons with an internal repeat; %d hits checked for bounds, minimum length, error bound and score <= optimal global score (+1/-3/-3) of the hit regions; the planted copy must be 80%% covered by one hit in both sequences\"\n", cases, nontrivial, runs, maxBg/1000, totalHits)
+	fmt.Printf("BOUNDED name=C15.planted cases=%d nontrivial=%d exhaustive=false domain=\"seeded random: %d target/query pairs of random DNA (2..%d kb) with one planted repeat of length 300..800 (exact, substitutions, substitutions+indels; forward or reverse complement), minimum length 100/150/200, minimum identity 0.85/0.9/0.95, plus %d short repeats (minimum length + 4..12, one substitution 6..10 bases inside each end), plus self comparisons with an internal repeat; %d hits checked for bounds, minimum length, error bound and score <= optimal global score (+1/-3/-3) of the hit regions; the planted copy must be 80%% covered by one hit in both sequences\"\n", cases, nontrivial, runs, maxBg/1000, shortRuns, totalHits)
 }
